@@ -158,7 +158,9 @@ def run(ctx, out):
             if kind == "0622" and reply and reply[0][:2] != b"\x06\x1e" and G.status_field(reply[-2] if len(reply) > 1 else reply[0], 0x87, 2) is not None:
                 # give every successful reservation its own receipt number
                 r = receipts[nb % len(receipts)]; nb += 1
-                reply = [P.status(receipt_no=r, result_code=0), P.completion()]
+                two = sum(1 for x in reply if x[:2] == b"\x04\x0f" and G.status_field(x, 0x87, 2) is not None) >= 2
+                # "ok2": the terminal first reports another receipt number, then the one the reservation completes under (the latest counts)
+                reply = ([P.status(receipt_no=7000 + nb, result_code=0), P.intermediate()] if two else []) + [P.status(receipt_no=r, result_code=0), P.completion()]
             queues[kind].append(reply)
             calls.append(call)
         return (G.default_cfg(max=mx), calls, queues, None, None)
